@@ -1393,3 +1393,15 @@ M("SEED-C20-b", ["C20"], [("@patch", "seeded/C20-b/patch.diff", "")], ["C20/publ
 # third round: property-centred behaviour-preserving refactorings (five per property, around that property's anchors)
 for _p in sorted(_glob.glob(_os.path.join(_os.path.dirname(_os.path.abspath(__file__)), "refactors", "rf3", "*.diff"))):
     RF("RF3-" + _os.path.basename(_p)[:-5], ALL19, [("@patch", "selftest/refactors/rf3/" + _os.path.basename(_p), "")])
+
+
+# Behaviour-preserving refactorings on which a check is *known* to fail closed (documented in DESIGN.md §6.5 / §8): the
+# property still holds; the construct the rewrite introduces is outside what the analysis can resolve.  They stay in the
+# catalogue so that the limit is measured, and so that any *other* key they start raising is noticed.
+KNOWN_LIMITS = {
+    "RF3-C02-05-outbound-next-step-combinators": ("next_step selects its pass through an array of function pointers (indirect calls are not resolved)",
+                                                  ["C01/ANCHOR-LOST/", "C15/ANCHOR-LOST/", "C03/wire/step", "C17/wire/step-from-entry"]),
+    "RF3-C08-01-packet-reader-combinators": ("the fixed-header probe's arithmetic is rewritten as iterator folds; its overflow sites need a numeric range analysis "
+                                             "through take(4).enumerate()", ["C08/panic/", "C08/varint/reader-probe"]),
+    "RF3-C14-03-packet-reader-control-flow": ("as above (position + fold in the fixed-header probe)", ["C08/panic/", "C08/varint/reader-probe"]),
+}
